@@ -528,6 +528,13 @@ def replay(ctx, path):
             return fdworld.replay(ctx, path, {"TMPDIR": tmp, "SFH_SCRATCH": tmp})
         finally:
             shutil.rmtree(tmp, ignore_errors=True)
+    if "c19-heapfill" in text:
+        from .. import heapcamp
+        tmp = tempfile.mkdtemp(prefix="c19-", dir="/var/tmp")
+        try:
+            return heapcamp.replay(ctx, path, {"TMPDIR": tmp, "SFH_SCRATCH": tmp})
+        finally:
+            shutil.rmtree(tmp, ignore_errors=True)
     if "--- solo" not in text:
         return ctx.replay_script(path)
     head, rest = text.split("--- solo", 1)
@@ -617,6 +624,10 @@ def run(ctx):
         ctx.notes["B_findings"] = len(findings)
         # ---- C: real descriptors (sf_open / sf_open_fd, SD2 resource fork, ALAC spool file) next to sentinels, every open/close order ----
         if fdworld.run(ctx, env):
+            found_input = True
+        # ---- D: heap history -- every script under three allocator fills (vlib/heapcamp.py; Sf.HeaderBuf) ----
+        from .. import heapcamp
+        if heapcamp.run(ctx, env, formats.writable_formats(ctx)):
             found_input = True
         leftovers = sorted(os.listdir(tmp)) if os.path.isdir(tmp) else []
         ctx.notes["tmpdir_leftovers"] = leftovers[:10]
